@@ -319,7 +319,8 @@ class GeneratedMetrics(Part):
     name = "generated-metrics"
     rule = ("D_metrics specifications: the flow graph is built WITH the Metrics object (metrics header/footer/body nodes, eager "
             "input nodes, merger swizzles interleaved with the loop chain) under default and drawn tie-breaks; same graph invariants "
-            "as the main part")
+            "as the main part; in addition the WHOLE metrics-mode program is compiled under the drawn linear extension and must be "
+            "closed Python (definite assignment), so that a dependence missing from the graph is observed")
 
     def budget(self, tier):
         return {"quick": dict(examples=150, shards=3, seconds=80),
@@ -343,7 +344,37 @@ class GeneratedMetrics(Part):
             raise Skip("rejected_by_compiler", "mapping")
         y = S.to_yaml(case["spec"])
         between = explore(y, True, case["choices"], {"yaml": y, "choices": case["choices"]})
-        return {"nontrivial": between > 0, "classes": ["family=metrics"]}
+        cl = ["family=metrics"]
+        # a dependence the graph forgot is observable: the whole metrics-mode program compiled under the drawn linear
+        # extension must still be closed Python (e.g. a loop's metrics header tracing a fiber before the getPayload() that binds it)
+        import networkx as nx
+        import teaal.ir.flow_graph as fgmod
+        from . import c06, c11
+        spec = case["spec"]
+        if any(pred(case) for pred in list(c06.EXCLUDED.values()) + list(c11.EXCLUDED.values())):
+            cl.append("observable-skipped:known-finding-class")
+            return {"nontrivial": between > 0, "classes": cl}
+        try:
+            default_text = str(X.compile_text(y, metrics=True))
+        except Exception:
+            cl.append("observable-skipped:default-order-does-not-compile")
+            return {"nontrivial": between > 0, "classes": cl}
+        c06.assert_closed(default_text, spec, what="metrics-mode program")
+        real = fgmod.nx
+        fgmod.nx = NxProxy(nx, kahn(case["choices"]))
+        try:
+            text = str(X.compile_text(y, metrics=True))
+        except Exception as e:
+            exc = e.exc if isinstance(e, X.Rejected) else e
+            raise Violation("the metrics-mode specification compiles under networkx's order but under the drawn linear extension of "
+                            "the same graph translation fails with %s: %s [%s]"
+                            % (type(exc).__name__, str(exc)[:120], X.innermost_teaal_frame(exc)),
+                            sig="extension-untranslatable:" + type(exc).__name__, details={"yaml": y, "choices": case["choices"]})
+        finally:
+            fgmod.nx = real
+        c06.assert_closed(text, spec, what="metrics-mode program under drawn tie-breaks")
+        cl.append("observable:text-changed" if text != default_text else "observable:text-same")
+        return {"nontrivial": between > 0, "classes": cl}
 
 
 PARTS = [Main(), ShippedMetrics(), Observable(), GeneratedMetrics()]
